@@ -184,8 +184,13 @@ func splitList(vs []string) []string {
 }
 
 func TestPropForwardedRoundTrip(t *testing.T) {
+	stats.Check(t, stats.N(4000, 30000), propForwardedRoundTrip())
+}
+
+// propForwardedRoundTrip: the property of TestPropForwardedRoundTrip (shared with the native fuzz target FuzzForwardedRoundTrip).
+func propForwardedRoundTrip() func(t *rapid.T) {
 	sub := stats.NewSub("forwarded-round-trip", "rapid: method, k8s-shaped path with generated segments (escaped '/', '%', '?', blanks, UTF-8, over-escaped safe bytes, empty segments, '.', '..', trailing slash), query (repeated keys, empty values, '+', escapes, malformed pairs), 0-6 end-to-end headers with 1-3 values, prior X-Forwarded-For values, hop-by-hop and Connection-listed headers, body 0 B..1 MiB (content-length or chunked); scripted upstream reply: status 200-599, 0-5 headers (multi-valued, hop-by-hop too), body 0 B..1 MiB in 1-5 flushed chunks; oracle: what the stub received == what was sent (method, decoded path, query as key->ordered values, body, every end-to-end header's value list; hop-by-hop / Authorization / Impersonate-* never as sent; X-Forwarded-For = prior + client address; no unlisted extra header) and what the client received == what the stub sent (status, body, every end-to-end header value in order; extra values only for allow-listed gateway headers); non-trivial = escaped or unusual path bytes, repeated query keys, multi-valued or hop-by-hop headers, or a body > 64 KiB; distinct by FNV-64 of the request/reply description")
-	stats.Check(t, stats.N(4000, 30000), func(t *rapid.T) {
+	return func(t *rapid.T) {
 		method := rapid.SampledFrom([]string{"GET", "GET", "HEAD", "POST", "PUT", "PATCH", "DELETE", "OPTIONS"}).Draw(t, "method")
 		decPath, wirePath := genPath(t)
 		rawQuery := genQuery(t)
@@ -396,7 +401,13 @@ func TestPropForwardedRoundTrip(t *testing.T) {
 			}
 		}
 		sub.Class(fmt.Sprintf("status-%dxx", rep.Status/100))
-	})
+
+	}
+}
+
+// FuzzForwardedRoundTrip: the same property driven by Go's coverage-guided fuzzer (thorough tier): the fuzzer's bytes are rapid's bit stream, so every input comes from the same generators and is judged by the same oracle.
+func FuzzForwardedRoundTrip(f *testing.F) {
+	f.Fuzz(rapid.MakeFuzz(propForwardedRoundTrip()))
 }
 
 func trunc(b []byte) string {
